@@ -2,7 +2,7 @@
    CLOSE.  The property theorems, and nothing else; proofs in Proofs2*.v.
    All statements are over every list of events from the initial state. *)
 From Coq Require Import Lia.
-From VF Require Import Nfs41.Proofs2Examples Nfs41.Proofs2NoPanic Nfs41.Proofs2Excl.
+From VF Require Import Nfs41.Proofs2Examples Nfs41.Proofs2NoPanic Nfs41.Proofs2Excl Nfs41.Proofs2Expiry.
 Open Scope N_scope.
 
 (* ---- one_owner_one_object (no hypothesis: the repaired code) -------------------------------------
@@ -138,6 +138,21 @@ Theorem remove_releases_exactly : forall cfg c0 evs,
                     else pool_locks h' (st_pool st).
 Proof. exact oofs_remove_exact. Qed.
 Print Assumptions remove_releases_exactly.
+
+(* Lease expiry / CREATE_SESSION replacing an incarnation
+   (clientIncarnationState.emptyAndRemove of client [c]): every lock table
+   loses exactly the entries of the lock-owner objects of [c]; all other
+   entries stay, in the same order.  (The same holds from every state that
+   satisfies the invariants -- the intermediate states of enter()'s loop
+   over several expired clients: empty_and_remove_tables_inv.) *)
+Theorem expiry_releases_exactly : forall cfg c0 evs,
+  Forall event_valid evs -> never_shared (init cfg c0) evs ->
+  let st := reachable cfg c0 evs in
+  forall id c, find_client id (st_clients st) = Some c ->
+  forall h, pool_locks h (st_pool (fst (empty_and_remove id st)))
+            = filter (not_of_client c) (pool_locks h (st_pool st)).
+Proof. exact empty_and_remove_tables. Qed.
+Print Assumptions expiry_releases_exactly.
 
 (* FREE_STATEID releases nothing: it never touches a lock table (it is
    gated by lockCount: free_stateid_locks_held_gate in PropertiesC20.v). *)
